@@ -220,52 +220,79 @@ func FlushEmit() { emitMu.Lock(); emitW.Flush(); emitMu.Unlock() }
 // calling onLine for every emitted JSON line. Non-"@@" output is passed to stderr (truncated).
 // Returns an error if any worker failed (harness error).
 func RunWorkers(n int, extraEnv []string, memLimitKB int, onLine func(worker int, line []byte)) error {
+	return RunShardPool(n, n, extraEnv, memLimitKB, onLine)
+}
+
+// StartEnv carries the parent's start time to the shards, so that a deadline budget is one
+// deadline for the whole check and not one per shard process.
+const StartEnv = "VERIF_T0"
+
+// RunShardPool runs `shards` worker processes (VERIF_WORKER=i/shards), at most `concurrency` at a
+// time. Many short-lived shards keep every process small: the real scheduler's caches, informers
+// and event recorders of the thousands of cycles a shard runs are released with the process.
+func RunShardPool(shards, concurrency int, extraEnv []string, memLimitKB int, onLine func(worker int, line []byte)) error {
 	exe, err := os.Executable()
 	if err != nil {
 		return err
 	}
+	if concurrency > shards {
+		concurrency = shards
+	}
+	t0 := fmt.Sprintf("%s=%d", StartEnv, time.Now().UnixNano())
 	var wg sync.WaitGroup
-	errs := make([]error, n)
+	errs := make([]error, shards)
 	var cbMu sync.Mutex
-	for i := 0; i < n; i++ {
+	next := make(chan int)
+	go func() {
+		for i := 0; i < shards; i++ {
+			next <- i
+		}
+		close(next)
+	}()
+	runOne := func(i int) {
+		args := append([]string{}, os.Args[1:]...)
+		var cmd *exec.Cmd
+		if memLimitKB > 0 {
+			sh := fmt.Sprintf("ulimit -v %d; exec \"$0\" \"$@\"", memLimitKB)
+			cmd = exec.Command("/bin/sh", append([]string{"-c", sh, exe}, args...)...)
+		} else {
+			cmd = exec.Command(exe, args...)
+		}
+		cmd.Env = append(os.Environ(), fmt.Sprintf("%s=%d/%d", WorkerEnv, i, shards), "GOMAXPROCS=2", t0)
+		cmd.Env = append(cmd.Env, extraEnv...)
+		out, err := cmd.StdoutPipe()
+		if err != nil {
+			errs[i] = err
+			return
+		}
+		var stderrBuf tailBuffer
+		cmd.Stderr = &stderrBuf
+		if err := cmd.Start(); err != nil {
+			errs[i] = err
+			return
+		}
+		sc := bufio.NewScanner(out)
+		sc.Buffer(make([]byte, 1<<20), 1<<28)
+		for sc.Scan() {
+			line := sc.Bytes()
+			if len(line) > 2 && line[0] == '@' && line[1] == '@' {
+				cbMu.Lock()
+				onLine(i, append([]byte{}, line[2:]...))
+				cbMu.Unlock()
+			}
+		}
+		if err := cmd.Wait(); err != nil {
+			errs[i] = fmt.Errorf("worker %d: %v\n%s", i, err, stderrBuf.String())
+		}
+	}
+	for c := 0; c < concurrency; c++ {
 		wg.Add(1)
-		go func(i int) {
+		go func() {
 			defer wg.Done()
-			args := append([]string{}, os.Args[1:]...)
-			var cmd *exec.Cmd
-			if memLimitKB > 0 {
-				sh := fmt.Sprintf("ulimit -v %d; exec \"$0\" \"$@\"", memLimitKB)
-				cmd = exec.Command("/bin/sh", append([]string{"-c", sh, exe}, args...)...)
-			} else {
-				cmd = exec.Command(exe, args...)
+			for i := range next {
+				runOne(i)
 			}
-			cmd.Env = append(os.Environ(), fmt.Sprintf("%s=%d/%d", WorkerEnv, i, n), "GOMAXPROCS=2")
-			cmd.Env = append(cmd.Env, extraEnv...)
-			out, err := cmd.StdoutPipe()
-			if err != nil {
-				errs[i] = err
-				return
-			}
-			var stderrBuf tailBuffer
-			cmd.Stderr = &stderrBuf
-			if err := cmd.Start(); err != nil {
-				errs[i] = err
-				return
-			}
-			sc := bufio.NewScanner(out)
-			sc.Buffer(make([]byte, 1<<20), 1<<28)
-			for sc.Scan() {
-				line := sc.Bytes()
-				if len(line) > 2 && line[0] == '@' && line[1] == '@' {
-					cbMu.Lock()
-					onLine(i, append([]byte{}, line[2:]...))
-					cbMu.Unlock()
-				}
-			}
-			if err := cmd.Wait(); err != nil {
-				errs[i] = fmt.Errorf("worker %d: %v\n%s", i, err, stderrBuf.String())
-			}
-		}(i)
+		}()
 	}
 	wg.Wait()
 	for _, e := range errs {
@@ -309,7 +336,13 @@ type Budget struct {
 	limit time.Duration
 }
 
-func NewBudget(d time.Duration) *Budget { return &Budget{start: time.Now(), limit: d} }
+func NewBudget(d time.Duration) *Budget {
+	b := &Budget{start: time.Now(), limit: d}
+	if v, err := strconv.ParseInt(os.Getenv(StartEnv), 10, 64); err == nil && v > 0 {
+		b.start = time.Unix(0, v) // shard of a pool: the budget started when the parent did
+	}
+	return b
+}
 func (b *Budget) Exceeded() bool       { return b.limit > 0 && time.Since(b.start) > b.limit }
 func (b *Budget) Elapsed() float64     { return time.Since(b.start).Seconds() }
 
